@@ -214,6 +214,25 @@ char *g_base;
 #define STR_SHORT_TAIL(p, len, cap, v) \
 	__CPROVER_forall { size_t v; (v < (cap)) ==> ((v + 4 < (len)) ==> (p)[v] != ':') }
 
+/* input string snapshot (first 16 bytes) for the native replay driver */
+#define VP_SNAP_RAW(p)                                                     \
+	size_t vp_in_n = g_n;                                                  \
+	uint8_t vp_in_r0 = (g_n > 0) ? (uint8_t) (p)[0] : 0, \
+	        vp_in_r1 = (g_n > 1) ? (uint8_t) (p)[1] : 0, \
+	        vp_in_r2 = (g_n > 2) ? (uint8_t) (p)[2] : 0, \
+	        vp_in_r3 = (g_n > 3) ? (uint8_t) (p)[3] : 0, \
+	        vp_in_r4 = (g_n > 4) ? (uint8_t) (p)[4] : 0, \
+	        vp_in_r5 = (g_n > 5) ? (uint8_t) (p)[5] : 0, \
+	        vp_in_r6 = (g_n > 6) ? (uint8_t) (p)[6] : 0, \
+	        vp_in_r7 = (g_n > 7) ? (uint8_t) (p)[7] : 0, \
+	        vp_in_r8 = (g_n > 8) ? (uint8_t) (p)[8] : 0, \
+	        vp_in_r9 = (g_n > 9) ? (uint8_t) (p)[9] : 0, \
+	        vp_in_r10 = (g_n > 10) ? (uint8_t) (p)[10] : 0, \
+	        vp_in_r11 = (g_n > 11) ? (uint8_t) (p)[11] : 0, \
+	        vp_in_r12 = (g_n > 12) ? (uint8_t) (p)[12] : 0, \
+	        vp_in_r13 = (g_n > 13) ? (uint8_t) (p)[13] : 0, \
+	        vp_in_r14 = (g_n > 14) ? (uint8_t) (p)[14] : 0, \
+	        vp_in_r15 = (g_n > 15) ? (uint8_t) (p)[15] : 0
 #define VP_SNAP_URL(u)                                                     \
 	size_t vp_in_bufsz = (u)->u_bufsz, vp_in_host = ((u)->u_hostname != NULL), \
 	       vp_in_user = ((u)->u_userinfo != NULL),                         \
